@@ -752,16 +752,30 @@ fn emit_one(otlp: &emit_otlp::Otlp, ev: &Ev, n: u64) {
     if !filler.is_empty() {
         props.push(("payload", emit::Value::from(filler.as_str())));
     }
+    // the kind arrives typed, as text, as an owned copy of the typed value (what a buffering wrapper hands on: the
+    // concrete type is erased), or as something that merely displays as the kind's name
+    static KIND_SPAN: emit::Kind = emit::Kind::Span;
+    static KIND_METRIC: emit::Kind = emit::Kind::Metric;
+    let owned_span = emit::Value::from_any(&KIND_SPAN).to_owned();
+    let owned_metric = emit::Value::from_any(&KIND_METRIC).to_owned();
+    fn kind_value<'a>(n: u64, typed: &'static emit::Kind, owned: &'a emit::value::OwnedValue, name: &'static str) -> emit::Value<'a> {
+        match n % 4 {
+            0 => emit::Value::from_any(typed),
+            1 => emit::Value::from(name),
+            2 => owned.by_ref(),
+            _ => emit::Value::capture_display(typed),
+        }
+    }
     match ev.kind {
         Kind::None => {}
         Kind::Span => {
-            props.push(("evt_kind", emit::Value::from_any(&emit::Kind::Span)));
+            props.push(("evt_kind", kind_value(n, &KIND_SPAN, &owned_span, "span")));
             props.push(("span_name", emit::Value::from("sim span")));
             props.push(("trace_id", emit::Value::from_any(&trace_id)));
             props.push(("span_id", emit::Value::from_any(&span_id)));
         }
         Kind::Metric => {
-            props.push(("evt_kind", emit::Value::from_any(&emit::Kind::Metric)));
+            props.push(("evt_kind", kind_value(n, &KIND_METRIC, &owned_metric, "metric")));
             props.push(("metric_name", emit::Value::from("sim_metric")));
             // "@..." stands for an aggregation that is present but not a string (the value's type is the producer's business)
             struct ShownAgg;
@@ -1319,6 +1333,13 @@ impl Engine for OtlpSim {
                                     "C09",
                                     "queued_event_lost",
                                     format!("event {m} was among the {ql} events pending after the burst but was never acknowledged ({tr} truncations counted)"),
+                                );
+                                // an event that was accepted and not cleared by a legitimate truncation, in no
+                                // acknowledged request although the final flush returned true: delivery, too
+                                out.violate(
+                                    prop,
+                                    "accepted_after_truncation_never_exported",
+                                    format!("event {m} was accepted after the queue had been truncated (it was among the last {ql} events, the queue's content when the burst ended) but is in no acknowledged request, and the final flush returned true"),
                                 );
                             }
                         }
